@@ -254,6 +254,9 @@ func (e *Exec) callOpaque(fr *Frame, st *State, in ssa.CallInstruction, c *ssa.C
 		e.note("callback: %s calls an application handler (assumed not to touch library-private state)", dispName(fr.fn))
 		for _, m := range e.fc.Modifies {
 			g := strings.TrimSpace(m)
+			if g == "callN" || g == "callAt" || g == "callRet" {
+				continue // written by traceCall below, not by the handler
+			}
 			if cur, ok := st.ghost[g]; ok && !e.isEpilogueTarget(g) {
 				st.ghost[g] = e.freshVal("g_"+g, cur.T, cur.K)
 			}
@@ -286,8 +289,35 @@ func (e *Exec) paramCallback(fr *Frame, c *ssa.CallCommon) string {
 	return e.fc.DefaultCallback
 }
 
-func (e *Exec) traceCall(fr *Frame, st *State, in ssa.CallInstruction, c *ssa.CallCommon, fv Val) {}
+// traceCall: application handlers invoked by the library are logged in the
+// ghost call trace (callN, callAt, callRet), identified by the handler value
+// (the first argument when the callee is itself a dispatcher parameter).
+func (e *Exec) traceCall(fr *Frame, st *State, in ssa.CallInstruction, c *ssa.CallCommon, fv Val) {
+	n, ok1 := st.ghost["callN"]
+	at, ok2 := st.ghost["callAt"]
+	if !ok1 || !ok2 {
+		return
+	}
+	who := fv.t()
+	if len(c.Args) > 0 {
+		if a := e.val(fr, c.Args[0], st); a.K == KRef {
+			if _, isFn := c.Args[0].Type().Underlying().(*types.Signature); isFn {
+				who = a.t()
+			}
+		}
+	}
+	e.lastTraceIdx = n.t()
+	st.ghost["callAt"] = Val{K: KMap, A: []string{e.S.Define("callAt", "(Array Int Int)", sx("store", at.t(), n.t(), who))}}
+	st.ghost["callN"] = vInt(e.S.Define("callN", "Int", sx("+", n.t(), "1")))
+}
+
 func (e *Exec) afterCallback(fr *Frame, st *State, in ssa.CallInstruction, c *ssa.CallCommon, fv Val, r Val) {
+	rt, ok := st.ghost["callRet"]
+	if !ok || e.lastTraceIdx == "" || r.K != KBool {
+		return
+	}
+	st.ghost["callRet"] = Val{K: KMap, A: []string{e.S.Define("callRet", "(Array Int Int)", sx("store", rt.t(), e.lastTraceIdx, sIte(r.t(), "1", "0")))}}
+	e.lastTraceIdx = ""
 }
 
 // ---- channels and goroutines (ghost logs are attached in contracts) --------------
@@ -326,11 +356,99 @@ func (e *Exec) execRecv(fr *Frame, st *State, x *ssa.UnOp) {
 		e.typeFacts(v, x.Type(), st)
 	}
 	fr.vals[x] = v
+	if cl := e.chanLogOf(e.val(fr, x.X, st)); cl != nil {
+		if x.CommaOk {
+			e.logRecv(st, cl, v.F[0], v.F[1].t(), "true")
+		} else {
+			e.logRecv(st, cl, v, "true", "true")
+		}
+	}
 }
 
 func (e *Exec) execClose(fr *Frame, st *State, in ssa.CallInstruction, ch ssa.Value) {}
-func (e *Exec) selectHook(fr *Frame, st *State, x *ssa.Select, res Val)             {}
-func (e *Exec) sendHook(fr *Frame, st *State, x *ssa.Send)                           {}
+func (e *Exec) chanLogOf(ch Val) *ChanLog {
+	if ch.Origin == "" {
+		return nil
+	}
+	for _, cl := range e.P.CS.ChanLogs {
+		var pk *types.Package
+		if sp := e.P.SPkgs[cl.PkgPath]; sp != nil {
+			pk = sp.Pkg
+		}
+		if t := resolveTypeIn(e.P, pk, cl.Type); t != nil && fieldArrName(t, cl.Field) == ch.Origin {
+			return cl
+		}
+	}
+	return nil
+}
+
+// logSend appends v to the channel's ghost log when cond holds.
+func (e *Exec) logSend(st *State, cl *ChanLog, v Val, cond string) {
+	n, ok1 := st.ghost[cl.N]
+	at, ok2 := st.ghost[cl.At]
+	if !ok1 || !ok2 {
+		return
+	}
+	var elem string
+	if at.K == KSMap {
+		elem = asStr(v)
+	} else {
+		elem = v.t()
+	}
+	srt := sortsOf(at.K)[0]
+	st.ghost[cl.At] = Val{K: at.K, A: []string{e.S.Define(cl.At, srt, sIte(cond, sx("store", at.t(), n.t(), elem), at.t()))}}
+	st.ghost[cl.N] = vInt(e.S.Define(cl.N, "Int", sIte(cond, sx("+", n.t(), "1"), n.t())))
+}
+
+// logRecv: a value received from a logged channel is the next unconsumed element.
+func (e *Exec) logRecv(st *State, cl *ChanLog, v Val, okTerm, cond string) {
+	if cl.Recv == "" {
+		return
+	}
+	r, ok1 := st.ghost[cl.Recv]
+	at, ok2 := st.ghost[cl.At]
+	if !ok1 || !ok2 {
+		return
+	}
+	got := sAnd(cond, okTerm)
+	var elem string
+	if at.K == KSMap {
+		elem = asStr(v)
+	} else {
+		elem = v.t()
+	}
+	e.S.Assert(sImp(got, sEq(elem, sx("select", at.t(), r.t()))))
+	st.ghost[cl.Recv] = vInt(e.S.Define(cl.Recv, "Int", sIte(got, sx("+", r.t(), "1"), r.t())))
+}
+
+func (e *Exec) selectHook(fr *Frame, st *State, x *ssa.Select, res Val) {
+	idx := res.F[0].t()
+	ri := 2
+	for i, s := range x.States {
+		ch := e.val(fr, s.Chan, st)
+		cl := e.chanLogOf(ch)
+		cond := sEq(idx, sInt(int64(i)))
+		if s.Dir == types.SendOnly {
+			if cl != nil {
+				e.logSend(st, cl, e.val(fr, s.Send, st), cond)
+			}
+			continue
+		}
+		if ri < len(res.F) {
+			if cl != nil {
+				e.logRecv(st, cl, res.F[ri], res.F[1].t(), cond)
+			}
+			ri++
+		}
+	}
+}
+
+func (e *Exec) sendHook(fr *Frame, st *State, x *ssa.Send) {
+	ch := e.val(fr, x.Chan, st)
+	if cl := e.chanLogOf(ch); cl != nil {
+		e.logSend(st, cl, e.val(fr, x.X, st), "true")
+	}
+}
 func (e *Exec) checkFrozen(fr *Frame, st *State, in ssa.CallInstruction, x Val)      {}
 
 // ---- maps -----------------------------------------------------------------------
